@@ -125,13 +125,16 @@ CLAIMED = {
        "string operators their kind; indexing yields a member of the element type. STAGE 2 (Thm/C01Eval), the evaluator-level "
        "statement for the FIRST-ORDER EXPRESSION FRAGMENT: a model of the checker (Model/Check: the admissibility tests and "
        "return_type of literals, variables, array / tuple literals, prefix ! and -, && / ||, all 17 scalar binary operators, "
-       "indexing and tuple access on non-union operands, if / else, blocks, `:=` with shadowing) and the theorem eval_sound / "
+       "indexing and tuple access on non-union operands, if / else, `if x: T = e` with its else branch, `match` with type, value "
+       "and default arms and the coverage test, blocks, `:=` with shadowing) and the theorem eval_sound / "
        "program_sound: whenever the model types an expression or statement list, EVERY value the reference evaluator produces for "
-       "it - any fuel, any store, any environment respecting the static types - inhabits that type by contents (mutual induction "
-       "on fuel over expressions, lists, statements and sequences; unions through concat's upper-bound law and matches_sound). "
+       "it - any fuel, any store, any environment respecting the static types - has a run-time TAG below that type (Type::matches: "
+       "what `match` and `if x: T = e` test at run time) and inhabits it BY CONTENTS (mutual induction on fuel over expressions, "
+       "lists, statements, sequences and match arms, carrying the invariant that stored array tags are well-formed and lie "
+       "above their elements' tags; unions through concat's upper-bound / least laws, transitivity of matches and matches_sound). "
        "The checker model is tied to the implementation by its own stream: 1500 generated fragment programs per quick run over "
-       "16 opaque free variables (`p := *(mut T v)`, so nothing folds), half of them ill-typed - same verdict and == static "
-       "type. Outside the fragment (functions, calls, cells, loops, match, if-set, structs, slices, iterators) the "
+       "16 opaque free variables (`p := *(mut T v)`, so nothing folds), half of them ill-typed, a third with match / if-set - same "
+       "verdict and == static type. Outside the fragment (functions, calls, cells, loops, structs, slices, iterators) the "
        "evaluator-level statement is NOT proved: for the "
        "running code it is decided by the in-crate monitor (feature `verif`), which judges the result of every executed "
        "instruction (~140k per quick run) against that instruction's own return_type() by tag and by contents, on generated "
@@ -144,12 +147,19 @@ CLAIMED = {
   text="Lean 4 theorems about Spec, where everything the implementation can only answer with a panic is the outcome `wrong`: on "
        "the operand kinds the checker admits, no binary / prefix operator, index or slice is `wrong` (only the documented errors); "
        "break / continue / return never escape a call, loops never let break / continue out; the error enumeration equals the "
-       "variants of ExecError in the source. Progress for whole accepted programs is NOT proved: for the running code it is decided "
+       "variants of ExecError in the source. STAGE 2 (Thm/C02Eval), PROGRESS FOR THE FIRST-ORDER FRAGMENT: for every expression / "
+       "statement list the checker model (Model/Check, tied to the implementation by C01's fragment-types stream) types - "
+       "literals, variables, arrays, tuples, prefix and all scalar binary operators, && / ||, index, tuple access, if / else, "
+       "`if x: T = e`, match, blocks, `:=` - the reference evaluator never reaches `wrong`, whatever the fuel, the store and the "
+       "type-respecting environment (eval_not_wrong / program_not_wrong: mutual induction on fuel, using the evaluator-level "
+       "soundness theorem for the operands' kinds and, for match, coverage_sound: an accepted match has an arm whose run-time test "
+       "succeeds on the scrutinee's tag). Progress outside the fragment (functions, cells, loops, iterators, structs) is NOT "
+       "proved: for the running code it is decided "
        "by panic hook + catch_unwind + worker exit status on generated programs, scoping / control-flow templates, iterator "
        "pipelines, assignment histories and host calls (admissible vectors must run, inadmissible ones must be rejected).",
   note="Lean kernel; Spec is hand-written (tied by the prog stream); resource exhaustion is outside the claim and ends runs as "
        "`inconclusive` through the fuel hook; panics inside third-party crates are observed, not modelled (except slyce's index conversion).",
-  technique="Lean 4 proof (no-wrong lemmas, signal containment) + panic oracle on generated programs and host calls", ref="DESIGN.md §6 C02"),
+  technique="Lean 4 proof (no-wrong lemmas, signal containment, progress of the first-order fragment incl. match coverage) + panic oracle on generated programs and host calls", ref="DESIGN.md §6 C02"),
  "C04": dict(
   text="Lean 4 theorems about Spec: every rewrite rule the Recreate pass applies is an equivalence (same value, same store, same "
        "signal): an operator on two constants is the operator's own exec and touches no store; `true && b` = b, `false && b` = "
